@@ -138,6 +138,16 @@ PROPS = {
         'assumptions': ['Go channel and select semantics', 'every Add creates a fresh channel (waiter identity)'],
         'trusted': ['modelled, not verified: Go runtime scheduler, time.Ticker'],
     },
+    'C18': {
+        'level_text': "Lean theorems: varint round trip for every value; the length-prefixed command file reads back as the written sequence with the same boundaries for every message sequence (c18_frames); the chunk stream is the identity on the byte stream for every way of cutting it into reads, hence file -> chunk stream -> file preserves the command sequence (c18_chunks, c18_ship); Reader.Read; SnapshotChunk (the type the stream readers recycle) survives encode/decode and decoding into a ResetVT-recycled object equals decoding into a fresh one (with a witness that the reset is needed); generic field-sequence decoder law. The vtproto encoders of KeyValue, Compare, RequestOp, Txn, the recursive Command and SnapshotChunk are transcribed and tied to the registered codec byte for byte on random message trees (all oneof arms, absent vs present-empty optional fields, 1- and 2-byte lengths, 64-bit scalars); the real snapshot file / Writer / Reader are run on message sequences whose length prefixes straddle snappy block boundaries and on reads of random sizes.",
+        'level_note': "Trusted: Lean kernel, harness. Not modelled: snappy/gzip/zstd (their round trips under 32 concurrent goroutines are tests in the correspondence run, labelled as such), protobuf decoding of the nested messages (checked against the real decoder by re-decoding every generated message into a fresh object, not proved), gRPC. Known finding K7 (latent): a Command recycled by ResetVT keeps a non-nil empty range_end, so decoding a message without range_end into it yields a present-but-empty one; no production path decodes into a pooled Command.",
+        'modules': ['Regatta.Props.C18'],
+        'runs': [{'name': 'wire', 'harness': 'wire', 'driver': 'wire', 'quick': {'VERIF_N': 4000}, 'thorough': {'VERIF_N': 150000}},
+                 {'name': 'frames', 'harness': 'frames', 'driver': 'wire', 'quick': {'VERIF_N': 6, 'VERIF_COMPRESS_ITERS': 120}, 'thorough': {'VERIF_N': 60, 'VERIF_COMPRESS_ITERS': 2000}, 'timeout': 3000}],
+        'rule': 'wire: random KeyValue / SnapshotChunk / Command trees (depth <= 2, every field independently present/absent/empty/long) through encoding.GetCodec("proto"): bytes compared with the Lean encoder, decoded into fresh and (SnapshotChunk) recycled objects; frames: 2k-22k messages of 1-280 bytes (length prefixes straddle 64 KiB snappy blocks) and few large ones written to a real snapshot file, read back, shipped through snapshot.Writer/Reader over reads of random sizes into a second file, read back; compressors: 32 goroutines x N round trips each for gzip, snappy, zstd',
+        'assumptions': ['klauspost/compress snappy/gzip/zstd streams decode to what was encoded (tested, not proved)', 'gRPC delivers messages in order'],
+        'trusted': ['modelled, not verified: compression libraries, generated vtproto decoders for nested messages'],
+    },
 }
 
 NOT_YET = {}
